@@ -127,6 +127,8 @@ TrClientNew ==
                           <<"C15.draw.PrivateKey", dok>>,
                           <<"C03.A", e.res.kind = "ok" => (out'.kind = "ok" /\ e.res.A = out'.A)>>,
                           <<"C03.M1", e.res.kind = "ok" => (out'.kind = "ok" /\ e.res.M1 = out'.M1)>>,
+                          \* where the specification produces values the client must produce them (not give up)
+                          <<"C03.produced", out'.kind = "ok" => e.res.kind = "ok">>,
                           <<"C04.ownA", (e.res.kind = "ok") = (out'.kind = "ok")>> >>,
                        {"ClientNew"}
                        \cup (IF e.N # SrvN \/ e.g # SrvG THEN {"ClientNew.announcedGroup"} ELSE {})
